@@ -253,7 +253,7 @@ func (r *grammarOptimizer) optimizeRule(expr Expression) Expression {
 			}
 			// TODO: Check if reference exists, otherwise raise an error, which reference is missing!
 			inlined := cloneExpr(r.rules[ruleRef.Name.Val].Expr)
-			if hasScopeLabels(inlined) {
+			if hasScopeLabels(inlined) || hasScopeCode(inlined) {
 				// The labels of the referenced rule live in that rule's own scope.
 				// An unnamed labeled expression gives the inlined copy a scope of
 				// its own (in the builder and in the parser) without changing what
@@ -299,6 +299,24 @@ func hasScopeLabels(expr Expression) bool {
 	case *SeqExpr:
 		for _, e := range expr.Exprs {
 			if hasScopeLabels(e) {
+				return true
+			}
+		}
+	}
+	return false
+}
+
+// hasScopeCode reports whether expr holds a code block in the scope it is
+// placed in. Such a block receives the labels of that scope: inlined without
+// a scope of its own it would receive the labels of the rule it is inlined
+// into, which can capture identifiers its code uses.
+func hasScopeCode(expr Expression) bool {
+	switch expr := expr.(type) {
+	case *ActionExpr, *AndCodeExpr, *NotCodeExpr, *StateCodeExpr:
+		return true
+	case *SeqExpr:
+		for _, e := range expr.Exprs {
+			if hasScopeCode(e) {
 				return true
 			}
 		}
